@@ -121,6 +121,9 @@ type Input struct {
 	// fake cluster that keeps resourceVersions, refuses outdated Updates (409 Conflict) and lets
 	// another writer (Doc.Intf) in right before it handles a mutating request of the operator.
 	Conc bool `json:"conc,omitempty"`
+	// Text: the fourth case class (text.go): the patch file is a text built from the JSON
+	// renderings of Docs with white space of its own and a raw fault text somewhere.
+	Text *TextIn `json:"text,omitempty"`
 	// Operator: "", "json" or "yaml" — additionally run the rendering through the real
 	// operator (hook process writes the patch file; ShellOperator.taskHandler handles the run)
 	Operator string `json:"operator,omitempty"`
@@ -747,6 +750,9 @@ func sameSession(a, b []RunObs, typed bool) bool {
 
 func Run(in Input) Obs {
 	var o Obs
+	if in.Text != nil {
+		return runText(in)
+	}
 	if in.Session {
 		o.SJSON = runSession(in, RenderJSON)
 		o.SYAML = runSession(in, RenderYAML)
@@ -1167,6 +1173,9 @@ func renderSession(in Input, obs *Obs, crash string) core.Case {
 }
 
 func Render(in Input, obs *Obs, crash string) core.Case {
+	if in.Text != nil {
+		return renderText(in, obs, crash)
+	}
 	if in.Session {
 		return renderSession(in, obs, crash)
 	}
@@ -1564,6 +1573,8 @@ func Gen(r *core.Rng, tier string) ([]core.In[Input], bool) {
 	ins = genSessions(&gen{r: r.Fork()}, tier, ins)
 	// so has the class with another writer
 	ins = genConc(&gen{r: r.Fork()}, tier, ins)
+	// and the class of patch files as text
+	ins = genText(&gen{r: r.Fork()}, tier, ins)
 	return ins, false
 }
 
@@ -1843,12 +1854,13 @@ func Extra() map[string]any {
 		"strings_as_text": "object / mergePatch / jsonPatch are given inline, as a YAML string or as a JSON string",
 		"session_class":   "second case class (tag class:session): the fake cluster additionally serves Widget and Gadget, each in a random ordered non-empty subset of example.io/v1, legacy.example.io/v1, apps.example.org/v1beta1 (CRDs registered in a shuffled order: the discovery order, hence the preferred groupVersion of each kind, varies); objects are identified by groupVersion|Kind/namespace/name and the initial cluster mostly holds the same name in several groups; 1-3 executions of 1-3 documents each go one after the other through ONE ObjectPatcher against one cluster (sampled: through one operator, one hook run per execution); delete / patch documents carry no apiVersion (30 %) or one of the serving groupVersions, stream session-unserved also groupVersions that do not serve the kind; observed per execution: parse ok, API calls with the groupVersion they went to, errors, the whole cluster",
 		"conc_class":      "third case class (tag class:conc): between the patcher's recording client and the fake cluster an API-server layer keeps a resourceVersion per object (one revision counter, changed on every write), refuses an Update with an outdated resourceVersion (409 Conflict) and lets ANOTHER WRITER in right before it handles a mutating request (create / update / patch / delete) of the operator: the next write of the queue the input holds for the document's object (set .data[k] = v on the existing object, or create the object) - for JQPatch and CreateOrUpdate that is the window between the operator's Get and its Update. Observed: as for the first class, and per document how many writes of the other writer happened. The whole stream goes through ONE call of the real ExecuteOperations; every document has an object of its own (queues are found by object). The other writer never deletes (an Update answered NotFound is not covered). retry.DefaultBackoff sleeps 10 ms between attempts: real time, not compared",
+		"text_class":      "fourth case class (tag class:text): the patch file is a TEXT built from the JSON renderings of the documents, white space of its own in front of each, and one raw fault text (tags text:fault:<class>, text:fault-at:first|middle|last); ONE run per case through the real ParseOperations + ExecuteOperations (sampled: through the operator). Model: encoding/json's scanner and Decoder loop byte by byte + the JSON->YAML fallback (C13_TModel); oracles answered by the harness with library calls of its own: what yaml.v3 makes of the whole text (decoder loop into any; documents recognised by canonical JSON; tag text:accepted-as-yaml when it is a well-formed YAML stream after all, e.g. one JSON document followed by --- and a YAML document), and for the generator whether a randomly corrupted text is still a JSON stream (such candidates, and texts yaml.v3 accepts with a document the harness cannot name, are not generated). The case carries the description of the text (documents + tail); the model checks that the description is honest (shape_ok: the tail really is no JSON) before anything is judged",
 		"fake_discovery":  "the fake client has no discovery cache; where the real client invalidates it and reports 'not supported by cluster' the fake dereferences nil: the harness's client wrapper turns exactly that into the real client's error",
 	}
 }
 
 var Driver = core.Driver[Input, Obs]{
-	Spec: core.Spec{Property: "C13", Imports: []string{"Json", "C13_Model", "C13_Spec", "C13_GModel", "C13_GSpec", "C13_CModel", "C13_CSpec", "C13_Corr"}, Corr: "C13_Corr", ShrinkKey: "docs",
-		Rule: "streams of 1-7 operation documents over 2 kinds x 2 namespaces x 3 names against a random initial cluster, each rendered as JSON and as YAML; streams: corpus, valid, valid-with-integers (integers inside objects), single-fault (a valid stream with one document made invalid, every position in thorough); non-trivial = >=2 documents, or 1 document against a non-empty cluster; sessions (streams session-corpus, session, session-single-fault, session-unserved): 1-3 executions of 1-3 documents through one ObjectPatcher on a cluster serving Widget / Gadget in 1-3 API groups each, non-trivial = >=2 documents; another writer (streams conc-grid, conc, conc-single-fault): 1-3 documents, each on an object of its own, against an API-server layer with resourceVersions and 409 Conflict, 0-6 writes of another writer ready per document (one happens right before each mutating request of the operation), conc-grid = 9 operations x target present/absent x 0..6 writes, non-trivial = some document has a write ready; distinct = distinct input JSON"},
+	Spec: core.Spec{Property: "C13", Imports: []string{"Json", "C13_Model", "C13_Spec", "C13_GModel", "C13_GSpec", "C13_CModel", "C13_CSpec", "C13_TModel", "C13_TSpec", "C13_Corr"}, Corr: "C13_Corr", ShrinkKey: "docs",
+		Rule: "streams of 1-7 operation documents over 2 kinds x 2 namespaces x 3 names against a random initial cluster, each rendered as JSON and as YAML; streams: corpus, valid, valid-with-integers (integers inside objects), single-fault (a valid stream with one document made invalid, every position in thorough); non-trivial = >=2 documents, or 1 document against a non-empty cluster; sessions (streams session-corpus, session, session-single-fault, session-unserved): 1-3 executions of 1-3 documents through one ObjectPatcher on a cluster serving Widget / Gadget in 1-3 API groups each, non-trivial = >=2 documents; another writer (streams conc-grid, conc, conc-single-fault): 1-3 documents, each on an object of its own, against an API-server layer with resourceVersions and 409 Conflict, 0-6 writes of another writer ready per document (one happens right before each mutating request of the operation), conc-grid = 9 operations x target present/absent x 0..6 writes, non-trivial = some document has a write ready; patch files as text (streams text-grid, text-grid-random-base, text-well-formed, text-random-fault): 0-4 documents as a JSON stream with white space of its own between them and ONE raw fault text somewhere (stray closing bracket / brace, comma, colon, unclosed bracket, garbage, control bytes, a document cut short after every token class, YAML after JSON and the reverse, broken YAML tails; random single-point corruption of one document), grid = every fault class x {before the first, after the first, a middle, after the last document}, non-trivial = a fault next to >= 1 document or >= 2 documents; distinct = distinct input JSON"},
 	Gen: Gen, Run: Run, Render: Render, PerShard: 24, Workers: 12, CaseTimout: 60 * time.Second, Extra: Extra,
 }
